@@ -137,29 +137,96 @@ def run_check(prop, tier, seed, jobs=None, overrides=None, quiet=False, repo=REP
     ov_key = None
     if overrides:
         ov_key = str(sorted((k, hash(v)) for k, v in overrides.items()))
-    ctx = mp.get_context("fork")
     tasks = []
     listing_errors = []
-    with ctx.Pool(min(jobs, max(1, len(mods)))) as pool:
-        for modname, obs, err in pool.map(list_task, [(m, tier, prop) for m in mods]):
-            if err:
-                listing_errors.append((modname, err))
-            for name, props, kind, shards in obs:
-                if only and only not in name:
-                    continue
-                if shards > 1:
-                    for k in range(shards):
-                        tasks.append((modname, name, tier, ov_key, overrides, (k, shards)))
-                else:
-                    tasks.append((modname, name, tier, ov_key, overrides))
+    for (m, _, _), status, res in run_parallel(list_task, [(m, tier, prop) for m in mods], jobs, 300):
+        if status != "ok":
+            listing_errors.append((m, f"listing the obligations {status}"))
+            continue
+        modname, obs, err = res
+        if err:
+            listing_errors.append((modname, err))
+        for name, props, kind, shards in obs:
+            if only and only not in name:
+                continue
+            if shards > 1:
+                for k in range(shards):
+                    tasks.append((modname, name, tier, ov_key, overrides, (k, shards)))
+            else:
+                tasks.append((modname, name, tier, ov_key, overrides))
     results = []
-    if tasks:
-        with ctx.Pool(min(jobs, len(tasks))) as pool:
-            for r in pool.imap_unordered(run_task, tasks, chunksize=1):
-                results.append(r)
+    budget = int(os.environ.get("PYVC_TASK_TIMEOUT", "0") or 0) or (900 if tier == "quick" else 7200)
+    for t, status, res in run_parallel(run_task, tasks, jobs, budget):
+        if status == "ok":
+            results.append(res)
+        else:
+            # a worker that died or ran out of time decides nothing: undecided / checker error, never a violation
+            kind = "unsupported:" if status.startswith("timeout") else "error:"
+            results.append({"module": t[0], "name": t[1], "problems": [f"{kind}harness worker {status}"], "clauses": [],
+                            "paths": 0, "paths_ok": 0, "n_problems": 1})
     results = merge_shards(results)
     results.sort(key=lambda r: (r["module"], r["name"]))
     return finish(prop, tier, seed, results, listing_errors, t0, quiet, repo)
+
+
+def _child_main(func, arg, conn):
+    try:
+        conn.send(func(arg))
+    except BaseException as e:  # noqa
+        import traceback
+        try:
+            conn.send({"__child_error__": f"{type(e).__name__}: {e}\n{traceback.format_exc(limit=6)}"})
+        except Exception:
+            pass
+    finally:
+        conn.close()
+
+
+def run_parallel(func, args, jobs, timeout_s):
+    """Run func(arg) for every arg, each in its own forked process (a crash or hang of one task cannot block or lose
+    the others).  Yields (arg, status, result) with status 'ok' | 'died (exit code N)' | 'timeout after N s'."""
+    import multiprocessing.connection as mpc
+    ctx = mp.get_context("fork")
+    pending = list(args)
+    running = {}
+    out = []
+    while pending or running:
+        while pending and len(running) < jobs:
+            a = pending.pop(0)
+            rd, wr = ctx.Pipe(duplex=False)
+            p = ctx.Process(target=_child_main, args=(func, a, wr))
+            p.start()
+            wr.close()
+            running[p] = (a, rd, time.time())
+        mpc.wait([rd for (_, rd, _) in running.values()], timeout=1.0)
+        for p in list(running):
+            a, rd, t0 = running[p]
+            got = None
+            if rd.poll():
+                try:
+                    got = rd.recv()
+                except (EOFError, OSError):
+                    got = None
+                p.join(10)
+                if p.is_alive():
+                    p.kill()
+                if isinstance(got, dict) and "__child_error__" in got:
+                    out.append((a, "died (" + got["__child_error__"][:300] + ")", None))
+                elif got is None:
+                    out.append((a, f"died (exit code {p.exitcode})", None))
+                else:
+                    out.append((a, "ok", got))
+            elif not p.is_alive():
+                out.append((a, f"died (exit code {p.exitcode})", None))
+            elif time.time() - t0 > timeout_s:
+                p.kill()
+                p.join(5)
+                out.append((a, f"timeout after {int(timeout_s)} s", None))
+            else:
+                continue
+            rd.close()
+            del running[p]
+    return out
 
 
 def merge_shards(results):
